@@ -388,6 +388,7 @@ func checkC13(c *Ctx, r *Report) {
 	listenerNotLeaked(c, r, "C13.R4.listener-not-leaked")
 	shutdownReleased(c, r, "C13.R2.shutdown-released")
 	shutdownUnbounded(c, r, "C13.R4.shutdown-unbounded")
+	shutdownClosesPacketConn(c, r, "C13.R4.shutdown-closes-packetconn")
 	writeDeadline(c, r, "C13.R3.write-deadline")
 	getterSameField(c, r, "C13.R3.timeout-getters", []string{"Server.getReadTimeout", "Server.getWriteTimeout"}, "a server that sets only the other timeout gets the zero value for this one: no write deadline is armed, and one client that stops reading blocks a handler, and Shutdown with it, for ever")
 	deadlineWriters(c, r, "C13.R3.deadline-writers")
